@@ -7,7 +7,9 @@
       Proofs/EbSimS_proofs.v                      decoder side: symbol S without split event
       Proofs/EbSimCompact_proofs.v                decoder side: the vertex compaction accepts and renames injectively
       Proofs/EbSimLoop_proofs.v                   decoder side: symbol loop + start faces + compaction along a script
-      Proofs/EbSim_proofs.v                       composition.
+      Proofs/EbSim_proofs.v                       composition
+      Proofs/EbSimEv_proofs.v                     decoder side with topology split events
+      Proofs/EbSimEvChk_proofs.v                  the script conditions as a sound decidable check.
 
     STATUS
       C01_ebsim_trace_refines_big_step   proved: erasing the trace of [eb_encode_tr] gives [eb_encode]
@@ -90,10 +92,34 @@
                                          ANY number of start faces / components / runs, every remove_invalid_vertices), and the
                                          simulation along the trace for it ([sim4]: the decoder's stack = current face, the
                                          encoder's entries below its top, one entry per later run)
-    NOT proved: encodings WITH split events (holes met by the traversal, handles): the general theorem. *)
+      SPLIT EVENTS, the DECODER HALF (Proofs/EbSimEv_proofs.v):
+      C01_ebsim_split_loop / C01_ebsim_dec_step_S_split / C01_ebsim_sim_step_S_split / C01_ebsim_S_separation_split
+                                         proved: the IsTopologySplit loop after an E / L / R registers exactly the events whose
+                                         source is that symbol (topology_split_active_corners[dp] = Next / Previous of the new
+                                         tip corner); symbol S whose split corner was registered: forward decoder lemma
+                                         (the left edge is glued to the registered corner, ONE stack entry is popped), SIM
+                                         preserved with the left edge glued to ANY corner (ja, ra) of an earlier face, p <> n
+      C01_ebsim_dec_roundtrip_script_events
+                                         proved: the decoder on ANY script with events ([script_atE] per symbol: the clauses of
+                                         [script_at] + for an S either `no event, the entry below the top is the left corner`
+                                         or `the unique registered event (j, edge): Opposite(left edge) = corner (j, 1 or 2)`,
+                                         events only at E / L / R, ids < 2^31; [start_ok_g] on the stack [topsE]) accepts,
+                                         every remove_invalid_vertices, and rebuilds the table described by the script
+      C01_ebsim_roundtrip_events_checked proved: the script conditions are a DECIDABLE check [class_script] of an output against
+                                         its table (sound), and for every well-formed table whose encoding passes the check the
+                                         round trip holds - WITH split events.  The torus and the discs with holes of the
+                                         Examples pass the check (so does every no-event Example).
+    NOT proved - the ENCODER half of the general theorem, exactly this lemma:
+        eb_encode c2v opp nv niso ndeg = EOk o  ->  class_script c2v opp nf o = true     (for tables with C13's invariants)
+    i.e. (a) o_events = the events grouped by source symbol (from the sortedness in out_ok); (b) an event (src, spl, edge) is
+    recorded exactly when the left corner pushed at the S symbol spl is popped dead, at the E / L / R symbol src that visits
+    that corner's face, with Opposite(Previous(S corner)) = Next / Previous(src corner) for RIGHT / LEFT - the encoder
+    invariant [KI] / [KO] of EbSimEnc_proofs has the `no event => no dead pop` direction only; (c) [tops_stackM] with dead
+    pops: the decoder stack [topsE] = the encoder's stack entries that are still alive when popped. *)
 From Coq Require Import ZArith List Bool.
 From Draco Require Import Model.CornerTable Model.EbEncoder Model.EbTrace Proofs.CornerTable_proofs Proofs.EbEncoder_proofs.
 From Draco Require Import Proofs.EbTrace_proofs Proofs.EbSimEnc_proofs Proofs.EbSimDec_proofs Proofs.EbSimS_proofs Proofs.EbSimLoop_proofs Proofs.EbSim_proofs.
+From Draco Require Import Proofs.EbSimEv_proofs Proofs.EbSimEvChk_proofs.
 From Draco Require Model.Edgebreaker Proofs.Edgebreaker_proofs Proofs.Edgebreaker_fan_proofs Proofs.Edgebreaker_compact_proofs
   Proofs.EbSimCompact_proofs.
 Import ListNotations.
@@ -546,6 +572,85 @@ Theorem C01_ebsim_trace_no_event : forall c2v opp nf nv niso ndeg o tr rm maxv,
 Proof. exact ebsim_trace_noevent. Qed.
 Print Assumptions C01_ebsim_trace_no_event.
 
+(** ** split events: the decoder half *)
+Local Open Scope Z_scope.
+Theorem C01_ebsim_split_loop : forall (ns k : nat), (k < ns)%nat -> Z.of_nat ns < 2147483648 ->
+  forall seg rest s stk, (forall e, In e seg -> (fst e < ns)%nat) ->
+  match rest with [] => True | (src, _, _) :: _ => 0 <= src < Z.of_nat ns - Z.of_nat k - 1 end ->
+  Edgebreaker.stack s = 3 * Z.of_nat k :: stk ->
+  exists s', Edgebreaker.split_loop (map (raw_ev ns k) seg ++ rest) s (Z.of_nat ns) (Z.of_nat ns - Z.of_nat k - 1) = Edgebreaker.Ok s' /\
+    Edgebreaker.events s' = rest /\ Edgebreaker.splits s' = rev (map (reg_of k) seg) ++ Edgebreaker.splits s /\
+    Edgebreaker.copp s' = Edgebreaker.copp s /\ Edgebreaker.c2v s' = Edgebreaker.c2v s /\ Edgebreaker.vc s' = Edgebreaker.vc s /\
+    Edgebreaker.nv s' = Edgebreaker.nv s /\ Edgebreaker.stack s' = Edgebreaker.stack s /\
+    Edgebreaker.invalid s' = Edgebreaker.invalid s /\ Edgebreaker.nfaces s' = Edgebreaker.nfaces s.
+Proof. exact split_loop_run. Qed.
+Print Assumptions C01_ebsim_split_loop.
+
+Theorem C01_ebsim_dec_step_S_split : forall NC maxv rm s sid ns a b rest0 rest, Edgebreaker_proofs.W NC maxv (Edgebreaker.nfaces s) s ->
+  Edgebreaker_fan_proofs.FI (Edgebreaker.nfaces s) s -> 3 * Edgebreaker.nfaces s + 3 <= NC ->
+  Edgebreaker.stack s = b :: rest0 -> stack1_of s sid rest0 = a :: rest -> 0 <= a < 3 * Edgebreaker.nfaces s -> a <> b ->
+  Edgebreaker.copp s a = -1 -> Edgebreaker.copp s b = -1 ->
+  let f := Edgebreaker.nfaces s in
+  let p := Edgebreaker.c2v s (Edgebreaker.prev_c a) in let r := Edgebreaker.c2v s (Edgebreaker.prev_c b) in
+  let n := Edgebreaker.c2v s (Edgebreaker.next_c b) in
+  p <> n -> r <> n ->
+  exists s', Edgebreaker.step NC maxv rm ns s sid 1 = Edgebreaker.Ok s' /\
+    Edgebreaker.copp s' = Edgebreaker.copp (s_glued s f a b) /\
+    (forall c, 0 <= c < 3 * f + 3 -> Edgebreaker.c2v s' c = if Edgebreaker.c2v (s_glued s f a b) c =? n then p else Edgebreaker.c2v (s_glued s f a b) c) /\
+    Edgebreaker.nv s' = Edgebreaker.nv s /\ Edgebreaker.stack s' = 3 * f :: rest /\
+    Edgebreaker.events s' = Edgebreaker.events s /\ Edgebreaker.splits s' = Edgebreaker.splits s /\
+    Edgebreaker.invalid s' = (if rm then n :: Edgebreaker.invalid s else Edgebreaker.invalid s) /\ Edgebreaker.nfaces s' = f + 1.
+Proof. exact dec_step_S_full_g. Qed.
+Print Assumptions C01_ebsim_dec_step_S_split.
+Local Close Scope Z_scope.
+
+Theorem C01_ebsim_sim_step_S_split : forall c2v opp nf, length c2v = 3 * nf -> opp_ok c2v opp ->
+  forall Q, (forall j, j < length Q -> nth j Q 0 < 3 * nf /\ is_degenerated c2v (nth j Q 0 / 3) = false) ->
+  NoDup (map (fun c => c / 3) Q) -> forall (NC maxv : Z) k d d' ja ra,
+  k < length Q -> 1 <= k -> ja < k -> ra < 3 -> SIM c2v opp Q k d -> Edgebreaker_proofs.W NC maxv (Z.of_nat k) d ->
+  let a := dco ja ra in let b := dco (k - 1) 0 in
+  Edgebreaker.copp d' = Edgebreaker.copp (s_glued d (Z.of_nat k) a b) ->
+  (forall c, (0 <= c < 3 * Z.of_nat k + 3)%Z ->
+     Edgebreaker.c2v d' c = if (Edgebreaker.c2v (s_glued d (Z.of_nat k) a b) c =? Edgebreaker.c2v d (Edgebreaker.next_c b))%Z
+                            then Edgebreaker.c2v d (Edgebreaker.prev_c a) else Edgebreaker.c2v (s_glued d (Z.of_nat k) a b) c) ->
+  Edgebreaker.nfaces d' = Z.of_nat (S k) ->
+  opp_at opp (eco Q k 1) = Some (eco Q (k - 1) 0) -> opp_at opp (eco Q k 2) = Some (eco Q ja ra) ->
+  ncr opp Q k (eco Q k 0) ->
+  SIM c2v opp Q (S k) d'.
+Proof. exact SIM_S_g. Qed.
+Print Assumptions C01_ebsim_sim_step_S_split.
+
+Theorem C01_ebsim_S_separation_split : forall c2v opp nf, length c2v = 3 * nf -> opp_ok c2v opp ->
+  forall Q, (forall j, j < length Q -> nth j Q 0 < 3 * nf /\ is_degenerated c2v (nth j Q 0 / 3) = false) ->
+  NoDup (map (fun c => c / 3) Q) -> forall k d ja ra,
+  k < length Q -> 1 <= k -> ja < k -> ra < 3 -> SIM c2v opp Q k d -> Edgebreaker_fan_proofs.FI (Z.of_nat k) d -> one_fan c2v opp ->
+  opp_at opp (eco Q k 1) = Some (eco Q (k - 1) 0) -> opp_at opp (eco Q k 2) = Some (eco Q ja ra) -> Sbreak c2v opp nf Q k ->
+  Edgebreaker.c2v d (dco ja ((ra + 2) mod 3)) <> Edgebreaker.c2v d (dco (k - 1) 1).
+Proof. exact S_sep_g. Qed.
+Print Assumptions C01_ebsim_S_separation_split.
+
+Theorem C01_ebsim_dec_roundtrip_script_events : forall c2v opp nf, length c2v = 3 * nf -> opp_ok c2v opp ->
+  forall Q, (forall j, j < length Q -> nth j Q 0 < 3 * nf /\ is_degenerated c2v (nth j Q 0 / 3) = false) ->
+  NoDup (map (fun c => c / 3) Q) ->
+  forall (NC maxv : Z) (rm : bool) (Y : list Z), NC = (3 * Z.of_nat (length Q))%Z -> length Y <= length Q -> (cntv Y <= maxv)%Z ->
+  one_fan c2v opp ->
+  forall EVseg : nat -> list (nat * bool), (Z.of_nat (length Y) < 2147483648)%Z ->
+  forall B, (forall f, f < nf -> is_degenerated c2v f = false -> In f (map (fun c => c / 3) Q)) ->
+  (forall j, j < length Y -> script_atE c2v opp nf Q Y EVseg j) -> start_ok_g c2v opp nf Q Y (topsE Y EVseg (length Y)) B ->
+  exists n s, Edgebreaker.eb_core NC maxv (Z.of_nat (length Q)) rm Y (rev (REM Y EVseg 0)) (Edgebreaker.bits_of_list B) = Edgebreaker.Ok (n, s) /\
+              eb_iso c2v opp Q (Edgebreaker.c2v s) (Edgebreaker.copp s).
+Proof. exact dec_roundtrip_events. Qed.
+Print Assumptions C01_ebsim_dec_roundtrip_script_events.
+
+Theorem C01_ebsim_roundtrip_events_checked : forall c2v opp nf nv niso ndeg o rm maxv,
+  length c2v = 3 * nf -> opp_ok c2v opp -> (forall c, c < 3 * nf -> vtx c2v c < nv) -> one_fan c2v opp ->
+  eb_encode c2v opp nv niso ndeg = EOk o -> class_script c2v opp nf o = true -> (cntv (rev (o_syms o)) <= maxv)%Z ->
+  let F := Z.of_nat (length (o_pcc o)) in
+  exists n s, Edgebreaker.eb_core (3 * F) maxv F rm (rev (o_syms o)) (o_events o) (Edgebreaker.bits_of_list (o_bits o)) = Edgebreaker.Ok (n, s) /\
+              eb_iso c2v opp (o_pcc o) (Edgebreaker.c2v s) (Edgebreaker.copp s).
+Proof. exact ebsim_roundtrip_checked. Qed.
+Print Assumptions C01_ebsim_roundtrip_events_checked.
+
 Theorem C01_ebsim_ndp_check_sound : forall opp tr, ndp_b opp tr = true -> ndp opp tr.
 Proof. exact ndp_b_sound. Qed.
 Print Assumptions C01_ebsim_ndp_check_sound.
@@ -679,3 +784,25 @@ Proof. vm_compute. reflexivity. Qed.
 Example ebsim_noevent_grid_and_tetrahedron :
   noevent_info (grid 3 3 false ++ [(50,51,52);(50,53,51);(51,53,52);(52,53,50)]) = Some (true, 2, true, true, true).
 Proof. vm_compute. reflexivity. Qed.
+
+(** encodings WITH split events pass the script check [class_script], so [C01_ebsim_roundtrip_events_checked] applies to them:
+    a 3x3 and a 4x5 torus (2 events each), a 3x3 disc with a hole (1 event), a 5x5 disc with two holes (2 events);
+    encodings without events pass it too *)
+Definition script_info faces :=
+  match ct_create faces with
+  | Some t => match eb_encode_ct t with
+              | EOk o => Some (class_script (ct_c2v t) (ct_opp t) (length faces) o, length (o_events o), length (o_bits o))
+              | _ => None
+              end
+  | None => None
+  end.
+Example ebsim_events_torus : script_info (grid 3 3 true) = Some (true, 2, 1) /\ script_info (grid 4 5 true) = Some (true, 2, 1).
+Proof. vm_compute. split; reflexivity. Qed.
+Example ebsim_events_grid_with_hole : script_info (firstn 8 (grid 3 3 false) ++ skipn 10 (grid 3 3 false)) = Some (true, 1, 1).
+Proof. vm_compute. reflexivity. Qed.
+Example ebsim_events_grid_two_holes :
+  script_info (firstn 13 (grid 5 5 false) ++ skipn 15 (firstn 30 (grid 5 5 false)) ++ skipn 33 (grid 5 5 false)) = Some (true, 2, 1).
+Proof. vm_compute. reflexivity. Qed.
+Example ebsim_events_check_no_event : script_info (grid 4 4 false) = Some (true, 0, 1) /\
+  script_info (grid 3 3 false ++ shift_faces 100 (grid 4 4 false)) = Some (true, 0, 2).
+Proof. vm_compute. split; reflexivity. Qed.
